@@ -130,6 +130,14 @@ def payload(fname: str, raw: bytes):
     return ["raw", raw.hex()]
 
 
+def appended(fname: str, new_payload):
+    """payload of the pre-existing archive after the new member was appended to it in place"""
+    old = payload(fname, old_bytes(fname))
+    if not old or not new_payload or old[0] != "zip" or new_payload[0] != "zip":
+        return None
+    return ["zip", old[1] + new_payload[1]]
+
+
 # ----------------------------------------------------------------------- cases
 def cases(tier: str):
     q = [
@@ -139,6 +147,12 @@ def cases(tier: str):
         Case("aln", "x.bogus", "seqfmt", "fmtfail"),
         Case("table4", "x.bedgraph", "table", "fmtfail"),
         Case("tree_unser", "x.json", "with", "fmtfail"),
+        # public writers given a ".zip" path (no in_zip): the archive must be replaced as a whole or left untouched
+        # (writers that refuse such a path must refuse cleanly); quick drives them with a reduced set of fault variants
+        Case("darr", "x.tsv.zip", None, target="zip"),
+        Case("aln", "x.json.zip", None, target="zip"),
+        Case("aln", "x.fasta.zip", None, target="zip"),
+        Case("tree", "x.nwk.zip", None, target="zip"),
     ]
     if tier == "quick":
         return q
@@ -181,6 +195,9 @@ def cases(tier: str):
     t.append(Case("darr", "x.tsv", "with"))
     t.append(Case("darr", "x.tsv.gz", "with"))
     t.append(Case("darr", "x.csv", "with", kwargs=(("format", "csv"), ("sep", ","))))
+    t.append(Case("darr", "x.tsv.zip", None, target="zip"))
+    t.append(Case("table", "x.json.zip", None, target="zip"))
+    t.append(Case("tree", "x.json.zip", None, target="zip"))
     # open_ in write mode on a zip archive
     t.append(Case("open_", "x.fasta.zip", None, target="zip"))
     t.append(Case("open_", "x.fasta.zip", None, "fmtfail", kwargs=(("fail", True),), target="zip"))
